@@ -95,7 +95,7 @@ class C16(Prop):
         "save_escapes_quote_backslash_cr", "tmpName_ne_file", "save_failure_leaves_no_tmp", "save_success_leaves_no_tmp",
         "restore_nesting_bounded", "nesting_test_only_refuses", "saveObject_leaves_no_tmp", "saveObject_error_touches_nothing",
         "saveObject_error_iff_too_deep", "tmpName_eq", "tmpName_never_a_save_file", "mapping_insert_spec",
-        "restore_mapping_all_found", "hash_sites_as_modelled", "error_messages_as_in_source",
+        "restore_mapping_all_found", "restore_mapping_all_found_alloc", "hash_sites_as_modelled", "error_messages_as_in_source",
         "save_structure_bytes_as_in_source", "save_atomic_partial", "elem_dispatch_spec", "key_dispatch_spec",
         "value_dispatch_spec", "svalue_dispatch_spec", "restore_dispatch_as_in_source")]
     witness_theorems = ["NV.C16.Witness." + t for t in (
@@ -986,6 +986,10 @@ class C16(Prop):
                     tops[l[5:6]] = tops.get(l[5:6], 0) + 1
                 elif l.startswith("tree "):
                     marks["trees_dumped"] += 1
+                elif l.startswith("tbl "):
+                    marks["hash_tables_compared"] = marks.get("hash_tables_compared", 0) + 1
+                    if not l.startswith(("tbl size=8 ", "tbl size=16 unfilled=12 ")) and ("size=16" in l or "size=32" in l or "size=64" in l or "size=128" in l):
+                        marks["hash_tables_larger_than_8"] = marks.get("hash_tables_larger_than_8", 0) + 1
         h["error_kinds"] = errs
         h["case_kinds"] = kinds
         h["restored_top_level_types"] = tops
